@@ -9,6 +9,7 @@ with a freshly rebuilt equal circuit.
 """
 from __future__ import annotations
 
+import functools
 import itertools
 import json
 
@@ -325,6 +326,30 @@ def spec_requests(specs):
     reqs, meta = [], []
     for call, before, after in specs:
         kind = call['call']
+        if kind in ('batch_insert', 'insert_into_range'):
+            blen = len(before)
+            items = []
+            if kind == 'batch_insert':
+                # ascending index (stable); trees given for one index are inserted in reverse; each index group is one EARLIEST insert
+                order = sorted(range(len(call['items'])), key=lambda i: call['items'][i][0])
+                by_index = {}
+                for i in order:
+                    by_index.setdefault(call['items'][i][0], []).append(call['items'][i][1])
+                for idx in sorted(by_index):
+                    k = max(min(idx, blen), 0)
+                    trees = by_index[idx][::-1]
+                    n_ops = sum(1 if 'op' in m else len(m['mom']) for t in trees for m in t)
+                    for t in trees:
+                        for m in t:
+                            items.append({'lo': k, 'hi': k, 'share': k < blen and n_ops > 1, 'mop': m})
+            else:
+                n_ops = len(call['ops'])
+                for o in call['ops']:
+                    items.append({'lo': call['start'], 'hi': call['end'], 'share': call['end'] < blen and n_ops > 1, 'mop': {'op': o}})
+            ids = [o['id'] for m in before for o in m] + [o['id'] for it in items for o in ([it['mop']['op']] if 'op' in it['mop'] else it['mop']['mom'])]
+            reqs.append({'p': 'C05', 'op': 'spec_place', 'before': before, 'after': after, 'inserted': items, 'check_order': len(ids) == len(set(ids))})
+            meta.append((dict(call, strategy='earliest'), 0, blen, len(items)))
+            continue
         if kind not in ('append', 'insert', 'new'):
             continue
         mops = call['mops']
@@ -375,6 +400,12 @@ def check_histories(ctx, w, histories, record=True):
                              {'lines': resolved[: pos + 1], 'impl_out': [a], 'spec_out': [b], 'theorem_or_correspondence': 'summary_coherent'}))
         if impl_out != model_out:
             n = next((i for i, (a, b) in enumerate(itertools.zip_longest(impl_out, model_out)) if a != b), 0)
+            qkind = resolved[min(n, len(resolved) - 1)]['call']
+            if qkind.startswith('q_') and n < len(impl_out) and n < len(model_out) and 'moments' in impl_out[n] and impl_out[n].get('moments') == model_out[n].get('moments'):
+                # the circuits agree and only the answer of a query differs: the model's query functions are the plain definitions
+                # (first / last moment touching the qubits, set of qubits / keys), i.e. what a freshly rebuilt circuit must answer
+                problems.append(('witness', f'query:{qkind}', f'{qkind} does not answer what the moments of the circuit say',
+                                 {'lines': resolved[: n + 1], 'impl_out': impl_out[n: n + 1], 'spec_out': model_out[n: n + 1], 'theorem_or_correspondence': f'Model.C05 query definition ({qkind})'}))
             problems.append(('corr', f'T2:history:{resolved[min(n, len(resolved)-1)]["call"]}', 'implementation and Lean model disagree on a history',
                              {'lines': resolved[: n + 1], 'impl_out': impl_out[: n + 1], 'model_out': model_out[: n + 1],
                               'theorem_or_correspondence': 'T2 correspondence harness/props/c05.py <-> CirqVerif.Model.C05'}))
@@ -492,11 +523,74 @@ def run(ctx: common.Run):
                 small = shrink(ctx, w, calls, sig)
                 probs = [p for p in check_history(ctx, w, small, record=False) if p[1] == sig]
                 ctx.extra['correspondence_broken'] = probs[0][3] if probs else replay
+    check_concat_and_moments(ctx, w)
     if seen_corr and not any(v['kind'] == 'witness' for v in ctx.violations):
         # the correspondence no longer checks; every history above was also run through the property-level
         # specification and the rebuilt-circuit comparison without finding a failing input
         rep = ctx.extra.pop('correspondence_broken')
         ctx.report_unproved('T2:C05-history-correspondence', 'Circuit editing no longer behaves like the Lean model; no input violating the property was found', rep)
+
+
+def check_concat_and_moments(ctx, w):
+    """`concat_ragged` against the placement specification (everything of the first circuit stays before what conflicts with it in
+    the second, on qubits and keys), and every way of building a moment rejects overlapping operations"""
+    cirq = w.cirq
+    rng = ctx.substream('concat')
+    n = 150 if ctx.tier == 'quick' else 3000
+    reqs, meta = [], []
+    for _ in range(n):
+        g = Gen(rng)
+        ms1 = [g.moment() for _ in range(rng.randint(0, 4))]
+        ms2 = [g.moment() for _ in range(rng.randint(0, 4))]
+        c1 = cirq.Circuit([cirq.Moment([w.op(o) for o in m]) for m in ms1])
+        c2 = cirq.Circuit([cirq.Moment([w.op(o) for o in m]) for m in ms2])
+        align = rng.choice([cirq.Alignment.LEFT, cirq.Alignment.RIGHT, cirq.Alignment.FIRST])
+        try:
+            out = cirq.Circuit.concat_ragged(c1, c2, align=align)
+        except ValueError as e:
+            ctx.count('concat_error', str(e)[:40])
+            continue
+        before, after = w.circuit_desc(c1), w.circuit_desc(out)
+        items = [{'lo': len(before), 'hi': len(before), 'share': False, 'mop': {'mom': [w.desc(o) for o in m.operations]}} for m in c2.moments]
+        reqs.append({'p': 'C05', 'op': 'spec_place', 'before': before, 'after': after, 'inserted': items, 'check_order': True})
+        meta.append((c1, c2, align, out))
+    for (c1, c2, align, out), so in zip(meta, ctx.driver.ask(reqs)):
+        ctx.count('call', 'concat_ragged')
+        ctx.case(['concat', repr(c1), repr(c2), str(align)], len(c1) > 0 and len(c2) > 0)
+        for name, okv in so.items():
+            if not okv:
+                ctx.report_witness(f'spec:{name}:concat_ragged', f'concat_ragged violates {name}', {'lines': [{'c1': repr(c1), 'c2': repr(c2), 'align': str(align)}], 'impl_out': [repr(out)[:2500]], 'spec_out': [so],
+                                                                                                   'theorem_or_correspondence': f'specPlace.{name}'})
+                break
+    # moment entry points
+    q = w.qs
+    for _ in range(n):
+        g = Gen(rng)
+        ops = [g.op(rng.choice(['u1', 'u1', 'u2', 'meas', 'cc'])) for _ in range(rng.randint(1, 4))]
+        qubits = [x for o in ops for x in o['q']]
+        overlap = len(qubits) != len(set(qubits))
+        built = [w.op(o) for o in ops]
+        ways = {
+            'Moment(ops)': lambda: cirq.Moment(built),
+            'Moment(*ops)': lambda: cirq.Moment(*built),
+            'Moment.from_ops': lambda: cirq.Moment.from_ops(*built),
+            'with_operations': lambda: cirq.Moment().with_operations(*built),
+            'with_operation': lambda: functools.reduce(lambda m, o: m.with_operation(o), built, cirq.Moment()),
+            'moment + op': lambda: functools.reduce(lambda m, o: m + o, built, cirq.Moment()),
+            'Circuit.from_moments': lambda: cirq.Circuit.from_moments(built),
+            'FrozenCircuit.from_moments': lambda: cirq.FrozenCircuit.from_moments(built),
+        }
+        for name, f in ways.items():
+            try:
+                m = f()
+                raised = False
+            except ValueError:
+                raised = True
+            ctx.count('call', 'moment:' + name)
+            ctx.case(['moment', name, ops], True)
+            if raised != overlap:
+                ctx.report_witness(f'moment:{name.split("(")[0]}', 'a way of building a moment ' + ('accepts operations on overlapping qubits' if overlap else 'rejects operations on disjoint qubits'),
+                                   {'lines': [{'ops': ops, 'entry_point': name}], 'impl_out': [raised], 'spec_out': [overlap], 'theorem_or_correspondence': 'Model.C05.mkMoment (C05_call_wf)'})
 
 
 def replay(ctx: common.Run, rep: dict) -> int:
